@@ -58,7 +58,13 @@ def main():
             if os.path.exists(os.path.join(wt, "tests", "seed_demo.rs")): os.remove(os.path.join(wt, "tests", "seed_demo.rs"))
             rc, out = sh(["cargo", "test", "--offline", "--no-fail-fast"], cwd=wt)
             p, f = test_summary(out)
-            res["existing_suite_with_patch"] = {"rc": rc, "passed": p, "failed": f}
+            attempts = 1
+            # the repository's unit tests share global state and are flaky when run in parallel on a
+            # loaded machine (also on the unchanged tree): a failure counts only if it persists single-threaded
+            while f > 0 and attempts < 3:
+                rc, out = sh(["cargo", "test", "--offline", "--no-fail-fast", "--", "--test-threads=1"], cwd=wt)
+                p, f = test_summary(out); attempts += 1
+            res["existing_suite_with_patch"] = {"rc": rc, "passed": p, "failed": f, "attempts": attempts}
             if rc != 0: res["existing_suite_output"] = "\n".join(l for l in out.splitlines() if "FAILED" in l or "panicked" in l)[-1500:]
             if os.path.exists(demo):
                 shutil.copy(demo, os.path.join(wt, "tests", "seed_demo.rs"))
